@@ -21,6 +21,8 @@ from vcheck.core import Task, Violation
 ID = 'C19'
 LEVEL = 'exploration'
 BUDGET = {'quick': 75, 'thorough': 480}
+# deterministic sub-checks repeated in a `python -O` child (core.optimized_child)
+OPT_SUBS = ('commas/malformed', 'split_path/exhaustive')
 RULE = ('split_path: every path made of 0..K segments over {plain(position '
         'tagged), empty, dotted, spaced} with and without a leading slash '
         '(trailing slashes arise from trailing empty segments) x minsegs 1..4 '
